@@ -2,7 +2,7 @@
    non-increasing priority-price order" over the model of txpool/tx_object_map.go + the publishing loop of wash. *)
 From Coq Require Import List NArith ZArith Bool Lia Sorted.
 From Verif Require Import Common.Util TxPool.Model TxPool.Proofs TxPool.ModelWash TxPool.ProofsWash
-  TxPool.ModelAdmission TxPool.ProofsAdmission.
+  TxPool.ModelAdmission TxPool.ProofsAdmission TxPool.Compose.
 From Verif Require Common.GoInt Gen.PoolSync GenProofs.PoolSyncProofs.
 Import ListNotations.
 Open Scope N_scope.
@@ -154,6 +154,47 @@ Theorem fresh_flow_adopts (St : Type) fee_ok energy_ok eff_priority_fee interval
   adopt St fee_ok energy_ok eff_priority_fee h f t = AOk.
 Proof. exact (ProofsAdmission.fresh_flow_adopts St fee_ok energy_ok eff_priority_fee interval_30 h s f t). Qed.
 
+(* 3c. the two halves composed: the verdict wash uses for an object IS Evaluate of its transaction on the wash's head
+      (eval_of); then every published executable is adoptable on that head up to the enumerated differences, and an
+      Evaluate drop names the clause of Evaluate that failed.  Premise static_ok: chain tag / delegator checked at
+      admission and "not blocked" re-checked by wash — established by add(), NOT by Fill (Fill only checks the block
+      list and resolvability): for Fill'ed transactions it is an assumption on Fill's caller. *)
+Theorem wash_published_adoptable (St : Type) fee_ok energy_ok eff_priority_fee interval_30 h s view pricing_of
+        blocked outlived refresh energy limit p o' :
+  (forall o, In o (objs p) -> blocked o = false -> pool_static (view o) = true) ->
+  In o' (wr_published (wash (env_of St fee_ok energy_ok interval_30 h s view pricing_of blocked outlived refresh energy limit) p)) ->
+  exists o, In o (objs p) /\ hash o' = hash o /\
+    evaluate St fee_ok energy_ok interval_30 h s (view o) = VExecutable /\
+    forall f, allowed St fee_ok energy_ok eff_priority_fee h s f (view o)
+                      (adopt St fee_ok energy_ok eff_priority_fee h f (view o)).
+Proof. exact (Compose.wash_published_adoptable St fee_ok energy_ok eff_priority_fee interval_30 h s view pricing_of
+               blocked outlived refresh energy limit p o'). Qed.
+
+Theorem eval_drop_names_clause (St : Type) fee_ok energy_ok interval_30 h s view pricing_of
+        blocked outlived refresh energy limit p hh c :
+  In (hh, REvalErr c) (wr_removed (wash (env_of St fee_ok energy_ok interval_30 h s view pricing_of blocked outlived refresh energy limit) p)) ->
+  exists o e, In o (objs p) /\ hash o = hh /\ c = ev_code e /\
+              evaluate St fee_ok energy_ok interval_30 h s (view o) = VErr e.
+Proof. exact (Compose.eval_drop_names_clause St fee_ok energy_ok interval_30 h s view pricing_of
+               blocked outlived refresh energy limit p hh c). Qed.
+
+(* the executables displaced by the pool limit are the lowest priced ones *)
+Theorem limit_displaces_lowest_priced limit l nonexec kept over y :
+  apply_limits limit (sort_desc l) nonexec = (kept, over) ->
+  In (hash y, RLimitExecTail) over -> In y (skipn limit (sort_desc l)) ->
+  forall x, In x kept -> pgp_of y <= pgp_of x.
+Proof. exact (Compose.limit_displaces_lowest_priced limit l nonexec kept over y). Qed.
+
+(* the error path of wash (legacy base gas price unreadable: cut the pool to the limit) keeps the invariant *)
+Theorem wash_error_cut_keeps_inv limit p : inv p -> inv (wash_error_cut limit p).
+Proof. exact (Compose.wash_error_cut_keeps_inv limit p). Qed.
+
+(* never over-admitted: without Fill (which skips the per-account check by design) no account ever holds more than
+   limit + 1 slots, for every interleaving (limit + 1 only when a tx names its own origin as delegator) *)
+Theorem quota_bounded L steps a :
+  forallb no_fill steps = true -> forallb (limit_le L) steps = true -> quota_of (objs (run steps)) a <= L + 1.
+Proof. exact (Compose.quota_bounded L steps a). Qed.
+
 (* 4. (T) the mode switch of the pool: over the definition GENERATED from txpool/tx_pool.go on every run, the pool
       treats the chain as synced (Add evaluates against the head, housekeeping washes) iff the head's timestamp is
       within 6 block intervals of the clock, in either direction; uint64 inputs, 6*BlockInterval < 2^64. *)
@@ -206,6 +247,18 @@ Example admission_example :
   adopt unit (fun _ _ => true) (fun _ _ _ => true) (fun _ _ => 0) ex_head (mkFlow unit 39990000 40000000 1000 tt (fun _ => None) 0) ex_tx = AGasLimitReached.
 Proof. vm_compute. repeat split; reflexivity. Qed.
 
+(* a state-dependent instance: energy suffices on the head state (true) but not after an earlier tx of the block consumed
+   it (false): Evaluate says executable, a flow over the consumed state answers bad tx (execution) — the enumerated
+   difference — and a flow over the head state adopts *)
+Definition ex_energy (st : bool) (_ : N) (_ : txv) : bool := st.
+Example admission_state_example :
+  evaluate bool (fun _ _ => true) ex_energy 30 ex_head true ex_tx = VExecutable /\
+  adopt bool (fun _ _ => true) ex_energy (fun _ _ => 0) ex_head (mkFlow bool 21000 40000000 1000 false (fun i => if i =? 5 then Some false else None) 0) ex_tx = ABad BExecFailed /\
+  adopt bool (fun _ _ => true) ex_energy (fun _ _ => 0) ex_head (mkFlow bool 0 40000000 1000 true (fun _ => None) 0) ex_tx = AOk /\
+  adopt bool (fun _ _ => true) ex_energy (fun _ _ => 3) ex_head (mkFlow bool 0 40000000 1000 true (fun _ => None) 4) ex_tx = ABad BPriorityFeeTooLow /\
+  adopt bool (fun _ _ => true) ex_energy (fun _ _ => 0) ex_head (mkFlow bool 0 40000000 1000 true (fun i => if i =? 77 then Some false else None) 0) ex_tx = AKnownTx.
+Proof. vm_compute. repeat split; reflexivity. Qed.
+
 Print Assumptions bookkeeping_inv.
 Print Assumptions bookkeeping_unguarded_refuted.
 Print Assumptions promote_unguarded_differs_only_when_stale.
@@ -221,4 +274,9 @@ Print Assumptions wash_published_sorted.
 Print Assumptions published_were_evaluated.
 Print Assumptions evaluate_implies_adopt.
 Print Assumptions fresh_flow_adopts.
+Print Assumptions wash_published_adoptable.
+Print Assumptions eval_drop_names_clause.
+Print Assumptions limit_displaces_lowest_priced.
+Print Assumptions wash_error_cut_keeps_inv.
+Print Assumptions quota_bounded.
 Print Assumptions is_chain_synced_iff.
